@@ -41,10 +41,14 @@ class Impl:
         self.mlog = mlog
         self._unholder = _unholder
         self.RangeHolder = RangeHolder
+        from mesonbuild.interpreter.interpreterobjects import SubprojectHolder
+        from mesonbuild.mesonlib import PerMachine
+        self.SubprojectHolder = SubprojectHolder
+        self.PerMachine = PerMachine
         self.InterpreterObject = InterpreterObject
         import tempfile
         self.dir = tempfile.mkdtemp(prefix='w-', dir=base) if base else common.scratch_dir('mverif-c01-')
-        src = os.path.join(self.dir, 'src')
+        src = self.src = os.path.join(self.dir, 'src')
         bld = os.path.join(self.dir, 'bld')
         os.makedirs(src)
         os.makedirs(bld)
@@ -82,6 +86,35 @@ class Impl:
         it.tmp_meson_version = None
         it.current_node = self.mparser.BaseNode(-1, -1, 'sentinel')
         self.messages = []
+
+    def reset_tree(self, files: T.Dict[str, str]) -> None:
+        """a fresh source tree: the other build files (directory relative to the source root -> text) are
+        written next to the top-level meson.build, and everything a previous configuration left in the
+        interpreter about directories and subprojects is forgotten (as a new `meson setup` would)"""
+        import shutil
+        for n in os.listdir(self.src):
+            if n != 'meson.build':
+                shutil.rmtree(os.path.join(self.src, n), ignore_errors=True)
+        for rel, txt in files.items():
+            p = os.path.join(self.src, rel, 'meson.build')
+            os.makedirs(os.path.dirname(p), exist_ok=True)
+            with open(p, 'w', encoding='utf-8') as f:
+                f.write(txt)
+        it = self.interp
+        it.processed_buildfiles = set()
+        it.subdir = ''
+        it.subproject_stack = []
+        it.subprojects = self.PerMachine({}, {})
+        for pm in (it.build.projects.host, it.build.projects.build):
+            for k in list(pm):
+                if k != '':
+                    del pm[k]
+        r = it.environment.wrap_resolver
+        r.wraps = {}
+        r.provided_deps = {}
+        r.provided_programs = {}
+        r.loaded_dirs = set()
+        r.load_wraps()
 
     def run_ast(self, ast) -> T.Tuple[str, T.Optional[dict]]:
         """-> (canonical answer, final variables or None)"""
@@ -124,6 +157,8 @@ class Impl:
             return '{' + ','.join(f'{self.canon(k)}:{self.canon(x)}' for k, x in v.items()) + '}'
         if isinstance(v, self.RangeHolder):
             return f'r{v.range.start}.{v.range.stop}.{v.range.step}'
+        if isinstance(v, self.SubprojectHolder):
+            return 'p' + canon_str(os.path.basename(v.subdir))
         return f'?{type(v).__name__}'
 
     def norm(self, v: T.Any) -> T.Any:
@@ -285,8 +320,22 @@ def ser(mp, n, out: T.List[str]) -> None:
         raise Unserialisable(t.__name__)
 
 
-def serialise(mp, block) -> str:
-    """the top-level CodeBlockNode as one protocol field"""
+def serialise(mp, block, skip: int = 0) -> str:
+    """the top-level CodeBlockNode as one protocol field (`skip` leading statements left out)"""
     out: T.List[str] = []
-    ser_nodes(mp, block.lines, out)
+    ser_nodes(mp, block.lines[skip:], out)
     return ' '.join(out)
+
+
+def serialise_tree(mp, main, files: T.Dict[str, T.Any]) -> str:
+    """`runfs` request: the main block and, per directory, the parsed block of its meson.build
+    (a subproject's root file without its leading project() call)"""
+    fields = [serialise(mp, main)]
+    for rel, ast in files.items():
+        skip = 0
+        first = ast.lines[0] if ast.lines else None
+        if isinstance(first, mp.FunctionNode) and first.func_name.value == 'project':
+            skip = 1
+        fields.append(common.enc(rel))
+        fields.append(serialise(mp, ast, skip))
+    return 'runfs ' + '|'.join(fields)
